@@ -250,6 +250,31 @@ pub fn cases(ctx: &Ctx) -> Vec<Case> {
             t[l - 1] |= 1;
             forms.push(("bit-string-with-non-zero-unused-bits", t));
         }
+        // a key string longer than 32 bytes, every length consistent
+        for extra in [1usize, 2, 8, 32] {
+            let mut t = b.clone();
+            t.extend(std::iter::repeat(0x41).take(extra));
+            t[1] += extra as u8;
+            if private {
+                t[13] += extra as u8; // OCTET STRING
+                t[15] += extra as u8; // inner OCTET STRING
+            } else {
+                t[10] += extra as u8; // BIT STRING
+            }
+            if t[1] < 0x80 {
+                forms.push(("key-string-longer-than-32-bytes", t));
+            }
+        }
+        // parameters after the OID inside the AlgorithmIdentifier (RFC 8410: absent)
+        if let Some(pos) = b.windows(4).position(|w| w == [0x30, 0x05, 0x06, 0x03]) {
+            for params in [&[0x05u8, 0x00][..], &[0x06, 0x03, 0x2b, 0x65, 0x70][..], &[0x04, 0x01, 0x00][..], &[0x00][..]] {
+                let mut t = b.clone();
+                t.splice(pos + 7..pos + 7, params.iter().copied());
+                t[pos + 1] += params.len() as u8;
+                t[1] += params.len() as u8;
+                forms.push(("algorithm-identifier-with-parameters", t));
+            }
+        }
         for (what, t) in forms {
             v.push(Case::MustRefuse { data: t.clone(), what: format!("not-der:{what}"), parsers: mask & 0b0_1111 });
             let tag = if private { "PRIVATE KEY" } else { "PUBLIC KEY" };
